@@ -36,6 +36,9 @@ type c37Call struct {
 	invalidBy string // name | type | offset | length
 	cancelled bool
 	gate      chan struct{}
+	ctx       context.Context
+	cancel    context.CancelFunc
+	cancelCmd bool // the harness issued a cancel command for this call
 	// observed (under mock.mu)
 	inner    bool
 	called   bool
@@ -88,12 +91,7 @@ func (m *c37Mock) Remove(_ context.Context, h backend.Handle) error {
 
 // c37Worker performs one call on the wrapper (its name is what c37Settled looks for).
 func c37Worker(be backend.Backend, m *c37Mock, c *c37Call) {
-	ctx := context.Background()
-	if c.cancelled {
-		cctx, cancel := context.WithCancel(ctx)
-		cancel()
-		ctx = cctx
-	}
+	ctx := c.ctx
 	h := backend.Handle{Type: c.typ, Name: "c" + strconv.Itoa(c.id)}
 	length, offset := 0, int64(0)
 	switch c.invalidBy {
@@ -251,6 +249,10 @@ func streamC37(h *H) {
 				c.invalidBy = h.Pick(kinds)
 			}
 			c.cancelled = h.Intn(7) == 0
+			c.ctx, c.cancel = context.WithCancel(context.Background())
+			if c.cancelled {
+				c.cancel()
+			}
 			mock.mu.Lock()
 			mock.calls = append(mock.calls, c)
 			mock.mu.Unlock()
@@ -287,6 +289,18 @@ func streamC37(h *H) {
 			ok := obsFreeze(obs, &done, &mu)
 			return ok
 		}
+		// calls whose context can still be cancelled: started, not returned, not cancelled yet
+		cancellable := func() []*c37Call {
+			var l []*c37Call
+			mock.mu.Lock()
+			for _, c := range mock.calls {
+				if !c.returned && !c.cancelled && !c.cancelCmd {
+					l = append(l, c)
+				}
+			}
+			mock.mu.Unlock()
+			return l
+		}
 		steps := 6 + h.Intn(30)
 		ok := true
 		for s := 0; s < steps && ok; s++ {
@@ -296,10 +310,29 @@ func streamC37(h *H) {
 			case r < 50 && len(mock.calls) < 24:
 				start()
 				ok = obs("-")
-			case r < 80 && len(in) > 0:
+			case r < 74 && len(in) > 0:
 				release(in[h.Intn(len(in))])
 				ok = obs("-")
-			case r < 92 && !frozen:
+			case r < 84 && len(cancellable()) > 0:
+				// the caller gives up: prefer calls that are still waiting (for a token or at the freeze gate)
+				l := cancellable()
+				var waiting []*c37Call
+				mock.mu.Lock()
+				for _, c := range l {
+					if !c.called {
+						waiting = append(waiting, c)
+					}
+				}
+				mock.mu.Unlock()
+				if len(waiting) > 0 && h.Intn(4) != 0 {
+					l = waiting
+				}
+				c := l[h.Intn(len(l))]
+				c.cancelCmd = true
+				h.Rec("cmd", "cancel", Itoa(c.id))
+				c.cancel()
+				ok = obs("-")
+			case r < 93 && !frozen:
 				ok = freeze()
 				frozen = ok
 				if !ok {
